@@ -24,6 +24,21 @@ type c10Case struct {
 	Depth int      `json:"depth,omitempty"` // order: max deviating occurrences
 	Seq   []string `json:"seq,omitempty"`   // history: program names rendered in order on one engine
 	Entry string   `json:"entry,omitempty"` // template | vue | fragment
+	// Data (order part): "" = the program's data; "keys" = the looped maps keyed by other Go
+	// types (int, float64, any holding strings - what yaml.v2 or a database driver delivers)
+	Data string `json:"data,omitempty"`
+}
+
+// catKeys: the maps a program loops over, keyed by something else than string
+func catKeys(canary string) map[string]any {
+	return catData(map[string]any{
+		"m":    map[any]any{"k1": "v1", "k2": "v2", "k3": "v3", "k4": "v4", "k5": "v5"},
+		"user": map[any]any{"name": "Ann", "tags": []string{"p", "q"}},
+		"mi":   map[int]string{3: "c", 1: "a", 2: "b", 10: "j"},
+		"mf":   map[float64]string{1.5: "x", 0.5: "y", 2: "z"},
+		// keys of different types that print the same
+		"mx": map[any]any{1: "int", "1": "str", int64(1): "i64", 1.0: "f", "b": "bee", true: "bool", "true": "strue"},
+	})(canary)
 }
 
 func (c *c10Case) Key() string { return core.KeyOf(c) }
@@ -202,6 +217,12 @@ func (c *c10Case) runOrder(ctx *core.Ctx) {
 		var r string
 		withPlan(plan, func() {
 			ctx.Eval(1)
+			if c.Data == "keys" {
+				var buf bytes.Buffer
+				err := catEngine().Load(p.Page).Fill(catKeys("CANARY")).Render(bg, &buf)
+				r = res(buf.String(), err)
+				return
+			}
 			r = res(catRender(catEngine(), p, "CANARY"))
 		})
 		return r
@@ -395,7 +416,7 @@ func init() {
 	core.Register(&core.Check{
 		ID:    "C10",
 		Level: "model_checking",
-		Rule: "a catalogue of " + fmt.Sprint(len(Catalog)) + " programs (one per feature, incl. 6 failing ones), all on one file set. (1) map-order: with every map iteration of the vuego module behind a seam, every execution with <=d deviating occurrences (all permutations for <=4 keys, reversal+rotations above) plus two global orders must give the bytes of the ascending-order run; " +
+		Rule: "a catalogue of " + fmt.Sprint(len(Catalog)) + " programs (one per feature, incl. 6 failing ones), all on one file set. (1) map-order: with every map iteration of the vuego module behind a seam, every execution with <=d deviating occurrences (all permutations for <=4 keys, reversal+rotations above) plus two global orders must give the bytes of the ascending-order run (the looped maps also keyed by int, float64 and any); " +
 			"(2) histories: every ordered sequence of <=L (program, data set) steps - each program with its normal and with an alternative data set that flips every boolean and changes lengths and strings, with the same values in other Go types (float64 for int, typed slices and maps, a struct for a map), and without any data (nil / empty map) - on one engine through Load().Fill().Render, Vue.Render and Vue.RenderFragment, last render compared with a fresh engine, no canary of an earlier render; (3) caller data deep-equal before/after through 4 entry points; (4) frozen and backwards clocks. states = executions whose output was compared; non-trivial = program reaches at least one map iteration / any history",
 		Bounds:      map[string]string{"quick": "d=1 deviation, L=2 (all ordered pairs)", "thorough": "d=2 deviations, L=3 (all ordered triples)"},
 		Assumptions: []string{"the instrumenter finds every range-over-map and MapKeys call of the vuego module by type (sites listed in the overlay's sites.json)", "map iteration inside dependencies (expr-lang, yaml, goldmark) is not controlled"},
@@ -408,6 +429,9 @@ func init() {
 			}
 			for _, p := range Catalog {
 				emit(&c10Case{Part: "order", Prog: p.Name, Depth: d})
+			}
+			for _, n := range []string{"formap", "formapkeys"} {
+				emit(&c10Case{Part: "order", Prog: n, Depth: d, Data: "keys"})
 			}
 			for _, p := range Catalog {
 				for _, e := range []string{"template", "vue", "fragment", "renderfile"} {
